@@ -34,6 +34,7 @@ namespace FEAT { namespace Math { template<> inline bool isnan<Q>(Q) { return fa
 #include <kernel/solver/diagonal_precond.hpp>
 #include <kernel/solver/matrix_precond.hpp>
 #include <memory>
+#include <map>
 
 using namespace FEAT;
 using namespace FEAT::LAFEM;
@@ -186,6 +187,37 @@ static void do_iluf(Cur& c, std::ostream& o)
   o << " Y "; show_q(o, y); o << " Z "; show_q(o, z);
 }
 
+// per-entry levels of the real symbolic factorisation, observed through the nested patterns: the level of (i, c) is the
+// smallest p' in 0..P for which factorize_symbolic(p') stores it.   ilulev P n L(rowPtr) L(colInd)
+// Output: "V" then per row "L(cols) L(levels)" (diagonal omitted, columns ascending)
+static void do_ilulev(Cur& c, std::ostream& o)
+{
+  long long P = c.i64();
+  Index n = c.idx();
+  NV rp = c.idxlist(), ci = c.idxlist();
+  std::vector<Index> vrp(rp.begin(), rp.end()), vci(ci.begin(), ci.end());
+  std::vector<std::map<Index, long long>> lev(n);
+  for(long long p = 0; p <= P; ++p)
+  {
+    OpenIlu ilu;
+    ilu.set_struct_csr(n, vrp.data(), vci.data());
+    ilu.factorize_symbolic(int(p));
+    for(Index i = 0; i < n; ++i)
+    {
+      for(Index k = ilu.rpl()[i]; k < ilu.rpl()[i+1]; ++k) lev[i].insert(std::make_pair(ilu.cil()[k], p));
+      for(Index k = ilu.rpu()[i]; k < ilu.rpu()[i+1]; ++k) lev[i].insert(std::make_pair(ilu.ciu()[k], p));
+    }
+  }
+  o << "V";
+  for(Index i = 0; i < n; ++i)
+  {
+    o << " " << lev[i].size();
+    for(auto& e : lev[i]) o << " " << e.first;
+    o << " " << lev[i].size();
+    for(auto& e : lev[i]) o << " " << e.second;
+  }
+}
+
 // ----------------------------------------------------------------------------------------------------------------
 // blocked histories (oracle only)
 // ----------------------------------------------------------------------------------------------------------------
@@ -265,6 +297,7 @@ static void handle(const verif::Tokens& t, std::ostream& o)
   std::string op = c.str();
   if(op == "hist") do_hist(c, o);
   else if(op == "iluf") do_iluf(c, o);
+  else if(op == "ilulev") do_ilulev(c, o);
   else if(op == "histb")
   {
     Index bs = c.idx();
